@@ -28,7 +28,9 @@ Definition qerr (t : tok) (c : bstr) (s : cst) : Prop :=
   is_prefix e_quoted c = true /\
   exists str base sr rest, c_scans s = sr :: rest /\
     (t = itm (map (shift_tok base) (lexq str)) (sc_recv sr) \/
-     t = itm (map (shift_tok base) (lexq str)) (sc_recv sr - 1)%nat).
+     t = itm (map (shift_tok base) (lexq str)) (sc_recv sr - 1)%nat) /\
+    (* positioned in the enclosing file, or (no enclosing text to point into) in the expression itself *)
+    (t_pos t <= inlen \/ (base = 0 /\ t_pos t <= N.of_nat (length str))).
 Definition eerr (t : tok) (c : bstr) (s : cst) : Prop := werr ts t (c_p s) \/ qerr t c s.
 
 Definition gpost {A} (Q : A -> cst -> Prop) (r : cres A) : Prop :=
@@ -76,12 +78,18 @@ Qed.
 Lemma gp_quoted str s : W ts (c_p s) -> gpost QW (parse_quoted_expr inlen lexq pexpr efuel str s).
 Proof.
   intros H. unfold parse_quoted_expr. destruct (3 <=? _)%nat; [exact I|]. cbv zeta.
-  match goal with |- context [map (shift_tok ?bs) (lexq str)] => set (base := bs) end.
-  set (ts' := map (shift_tok base) (lexq str)).
-  pose proof (Hpexpr ts' (efuel ts') 0 (pst_init ts') (W_init ts')) as X.
-  destruct (pexpr (efuel ts') 0 (pst_init ts')) as [n p'|t c p'|m|]; cbn in X |- *; auto.
-  match goal with |- gpost _ (if ?cnd then _ else _) => destruct cnd end; cbn; [|exact I]. right. split; [exact (is_prefix_app_self e_quoted c)|].
-  eexists str, base, _, _. split; [reflexivity|]. exact X.
+  destruct ((N.of_nat (length str) <=? t_pos (err_tok (c_p s))) && (t_pos (err_tok (c_p s)) <=? inlen)) eqn:Ein.
+  - set (base := t_pos (err_tok (c_p s)) - N.of_nat (length str)).
+    set (ts' := map (shift_tok base) (lexq str)).
+    pose proof (Hpexpr ts' (efuel ts') 0 (pst_init ts') (W_init ts')) as X.
+    destruct (pexpr (efuel ts') 0 (pst_init ts')) as [n p'|t c p'|m|]; cbn in X |- *; auto.
+    destruct (t_pos t <=? inlen) eqn:Eg; cbn; [|exact I]. right. split; [exact (is_prefix_app_self e_quoted c)|].
+    eexists str, base, _, _. split; [reflexivity|]. split; [exact X|]. left. apply N.leb_le. exact Eg.
+  - set (ts' := map (shift_tok 0) (lexq str)).
+    pose proof (Hpexpr ts' (efuel ts') 0 (pst_init ts') (W_init ts')) as X.
+    destruct (pexpr (efuel ts') 0 (pst_init ts')) as [n p'|t c p'|m|]; cbn in X |- *; auto.
+    destruct (t_pos t <=? N.of_nat (length str)) eqn:Eg; cbn; [|exact I]. right. split; [exact (is_prefix_app_self e_quoted c)|].
+    eexists str, 0, _, _. split; [reflexivity|]. split; [exact X|]. right. split; [reflexivity|]. apply N.leb_le. exact Eg.
 Qed.
 
 Hint Resolve B_W gp_errorf gp_unexp gp_next gp_peek gp_expect gp_backup gp_lift_expr gp_quoted : gp.
@@ -359,28 +367,29 @@ End Cmd.
 (* parse.SoyFile: the error it returns is reported at the item the parser received last from the
    file's scanner or at the one before it; an error inside a quoted attribute expression, at the
    last or last-but-one item that expression's own scanner delivered *)
-Definition quoted_window (lexq : bstr -> list tok) (t : tok) (c : bstr) (scans : list scanrec) : Prop :=
+Definition quoted_window (inlen : N) (lexq : bstr -> list tok) (t : tok) (c : bstr) (scans : list scanrec) : Prop :=
   is_prefix e_quoted c = true /\
   exists str base sr, In sr scans /\
     (t = itm (map (shift_tok base) (lexq str)) (sc_recv sr) \/
-     t = itm (map (shift_tok base) (lexq str)) (sc_recv sr - 1)%nat).
+     t = itm (map (shift_tok base) (lexq str)) (sc_recv sr - 1)%nat) /\
+    (t_pos t <= inlen \/ (base = 0 /\ t_pos t <= N.of_nat (length str))).
 
 Theorem parse_file_error_window inlen lexq unq pexpr efuel fuel ts t c st :
   (forall ts f prec p, W ts p -> xpost ts (A:=node) (fun _ p' => W ts p') (pexpr f prec p)) ->
   po_result (parse_file inlen lexq unq pexpr efuel fuel ts) = PErr t c st ->
-  werr ts t st \/ quoted_window lexq t c (po_scans (parse_file inlen lexq unq pexpr efuel fuel ts)).
+  werr ts t st \/ quoted_window inlen lexq t c (po_scans (parse_file inlen lexq unq pexpr efuel fuel ts)).
 Proof.
   intros Hpe. unfold parse_file.
   pose proof (gp_item_list inlen lexq unq pexpr efuel Hpe ts fuel u_eof (cst_init ts) (W_init ts)) as H.
   destruct (item_list _ _ _ _ _ fuel u_eof (cst_init ts)) as [n s|t' c' s|m|]; cbn [po_result po_scans]; intros E; inversion E; subst; clear E.
-  cbn in H. destruct H as [H|(Hq & str & base & sr & rest & Hs & Ht)]; [left; exact H|right].
-  split; [exact Hq|]. exists str, base, sr. split; [|exact Ht].
+  cbn in H. destruct H as [H|(Hq & str & base & sr & rest & Hs & Ht & Hpos)]; [left; exact H|right].
+  split; [exact Hq|]. exists str, base, sr. split; [|split; [exact Ht|exact Hpos]].
   right. apply in_rev. rewrite rev_involutive. rewrite Hs. left; reflexivity.
 Qed.
 
 Theorem soy_file_error_window inlen lexq unq ts t c st :
   po_result (soy_file inlen lexq unq ts) = PErr t c st ->
-  werr ts t st \/ quoted_window lexq t c (po_scans (soy_file inlen lexq unq ts)).
+  werr ts t st \/ quoted_window inlen lexq t c (po_scans (soy_file inlen lexq unq ts)).
 Proof.
   unfold soy_file. apply parse_file_error_window. intros ts' f prec p H. apply xp_parse_expr. exact H.
 Qed.
